@@ -241,9 +241,25 @@ package netceptor
 //@   site call sendRoutingUpdate SUSPECT: [C06] requires ri.NodeID == s.nodeID && ri.UpdateEpoch > s.epoch && arg1 == ri.UpdateEpoch
 //@   site call Shutdown DUPLICATE: [C06 C11] requires ri.NodeID == s.nodeID && ri.SuspectedDuplicate == s.epoch && ri.UpdateEpoch != s.epoch
 
+//@ monitor (s *Netceptor) serviceAdsLock
+//@   protects serviceAdsReceived
+//@   inv ADS: s.serviceAdsReceived != nil && forall n string :: (n in s.serviceAdsReceived) ==> s.serviceAdsReceived[n] != nil
+//@   inv ADSNONNIL: forall n string, v string :: (n in s.serviceAdsReceived) && (v in s.serviceAdsReceived[n]) ==> s.serviceAdsReceived[n][v] != nil
+
+//@ spec adknown(s *Netceptor, ad *ServiceAdvertisement) bool := (ad.NodeID in s.serviceAdsReceived) && (ad.Service in s.serviceAdsReceived[ad.NodeID])
+//@ spec adtime(s *Netceptor, ad *ServiceAdvertisement) time := s.serviceAdsReceived[ad.NodeID][ad.Service].Time
+
 //@ func (*Netceptor).handleServiceAdvertisement
 //@   tags C07 C18
-//@   requires s != nil
+//@   safetytags C07
+//@   safety
+//@   requires s != nil && len(data) >= 1
+//@   site mapupdate map[string]*ServiceAdvertisement NEWERONLY: [C18] requires key == si.ServiceAdvertisement.Service && value == si.ServiceAdvertisement && !si.Cancel
+//@        && (!acqof("serviceAdsLock", adknown(s, si.ServiceAdvertisement)) || si.ServiceAdvertisement.Time > acqof("serviceAdsLock", adtime(s, si.ServiceAdvertisement)))
+//@   site delete map[string]*ServiceAdvertisement CANCELLATERONLY: [C18] requires key == si.ServiceAdvertisement.Service && si.Cancel
+//@        && (!acqof("serviceAdsLock", adknown(s, si.ServiceAdvertisement)) || si.ServiceAdvertisement.Time > acqof("serviceAdsLock", adtime(s, si.ServiceAdvertisement)))
+//@   site call flood RELAYAPPLIED: [C18] requires arg1 == data && arg2 == receivedFrom
+//@        && (!acqof("serviceAdsLock", adknown(s, si.ServiceAdvertisement)) || si.ServiceAdvertisement.Time > acqof("serviceAdsLock", adtime(s, si.ServiceAdvertisement)))
 
 //@ func (*Netceptor).runProtocol
 //@   tags C07 C11
@@ -276,8 +292,10 @@ package netceptor
 //@   inv SEEN: s.seenUpdates != nil
 
 //@ func (*Netceptor).flood
-//@   tags C06 C07
+//@   tags C06 C07 C18
+//@   safety
 //@   requires s != nil
+//@   modifies nothing
 
 //@ func (*Netceptor).sendRoutingUpdate
 //@   tags C06 C07
